@@ -60,6 +60,11 @@ func runSubsys(sc subsysCfg, tier string) int {
 			cfg.Byzantine = 60
 			r.Count("histories_with_byzantine_proposer", 1)
 		}
+		if i%4 >= 2 {
+			// as on a real node, the mempool check runs on every submitted transaction before the block arrives
+			cfg.Gossip = true
+			r.Count("histories_with_mempool_checks_on_the_replica", 1)
+		}
 		rrng := rand.New(rand.NewSource(hseed * 5))
 		if sc.restarts {
 			cfg.Specs = []world.NodeSpec{{Name: "lead", Validator: w0.Vals[0], LogLevel: 1}, {Name: "restarter", Validator: w0.Vals[0], LogLevel: 1}}
